@@ -101,7 +101,7 @@ def writable_formats(ctx, majors, subs):
 
 def make_seeds(ctx, fmts):
     scripts = [("seed-%08x-%d" % (f, ch), c03fuzz.seed_script(f, ch, 8000)) for (f, ch) in fmts]
-    out = ctx.batch(scripts, op_timeout=20, workers=min(WORKERS, 8))
+    out = ctx.batch(scripts, op_timeout=20, workers=min(WORKERS, 8), retry_timeouts=False)
     seeds = []
     for (name, text) in scripts:
         lines = [l for l in out.get(name, []) if l]
@@ -182,7 +182,7 @@ class Fuzz:
         self._judge_jobs(jobs)
 
     def _judge_jobs(self, jobs):
-        out = self.ctx.batch([(j[0], "\n".join(j[5]) + "\n") for j in jobs], op_timeout=OP_TIMEOUT, workers=WORKERS)
+        out = self.ctx.batch([(j[0], "\n".join(j[5]) + "\n") for j in jobs], op_timeout=OP_TIMEOUT, workers=WORKERS, retry_timeouts=False)
         if jobs and not getattr(self, "example", None):
             j = next((x for x in jobs if x[2] != "seed" and len(x[4]) <= 1200), jobs[0])
             self.example = {"kind": "mutated file + API script (monitored)", "seed_format": "%08x" % self.seeds[j[1]][0], "mutation": j[2], "route": j[3],
@@ -226,7 +226,7 @@ class Fuzz:
 
 
 def still_fails(ctx, data, ops, known, sig):
-    out = ctx.batch([("m", script_text(data, ops[1:] if ops and ops[0].startswith("store") else ops))], op_timeout=(2 if "TIMEOUT" in sig else OP_TIMEOUT), workers=1)
+    out = ctx.batch([("m", script_text(data, ops[1:] if ops and ops[0].startswith("store") else ops))], op_timeout=(2 if "TIMEOUT" in sig else OP_TIMEOUT), workers=1, retry_timeouts=False)
     full = ["store s0 x"] + (ops[1:] if ops and ops[0].startswith("store") else ops)
     v, _ = c03fuzz.judge(full, out.get("m", []), known)
     return v is not None and v[1].split(" ")[0].split(":")[0:2] == sig.split(" ")[0].split(":")[0:2]
@@ -293,7 +293,7 @@ def report_failure(ctx, fz, f, found):
         mdata, mbody = minimise(ctx, seed, data, ops, fz.known, verdict)
     except Exception:
         mdata, mbody = data, ops[1:]
-    out = ctx.batch([("final", script_text(mdata, mbody))], op_timeout=OP_TIMEOUT, workers=1).get("final", [])
+    out = ctx.batch([("final", script_text(mdata, mbody))], op_timeout=OP_TIMEOUT, workers=1, retry_timeouts=False).get("final", [])
     v2, _ = c03fuzz.judge(["store"] + mbody, out, fz.known)
     text = ("# C03: %s\n# seed format %08x (%d ch), mutation '%s', route %s; minimised from %d to %d bytes, %d -> %d operations\n"
             "# symptom after minimisation: %s\n# transcript of the minimised script:\n%s\n--- script\n%s"
@@ -315,7 +315,7 @@ def replay(ctx, path, known):
         return
     script = text.split("--- script", 1)[1].lstrip("\n")
     ops = [l for l in script.split("\n") if l.strip()]
-    out = ctx.batch([("replay", script)], op_timeout=OP_TIMEOUT, workers=1).get("replay", [])
+    out = ctx.batch([("replay", script)], op_timeout=OP_TIMEOUT, workers=1, retry_timeouts=False).get("replay", [])
     for l in out:
         if l:
             print(l[:400])
@@ -354,7 +354,7 @@ def regression_scripts(ctx, known):
         head, script = text.split("--- script", 1)
         script = script.lstrip("\n")
         ops = [l for l in script.split("\n") if l.strip()]
-        out = ctx.batch([("reg", script)], op_timeout=OP_TIMEOUT, workers=1).get("reg", [])
+        out = ctx.batch([("reg", script)], op_timeout=OP_TIMEOUT, workers=1, retry_timeouts=False).get("reg", [])
         v, _ = c03fuzz.judge(ops, out, known)
         tr, status, stray = c03fuzz.split_transcript(out)
         why = None
@@ -394,7 +394,7 @@ def replay_known(ctx):
             lines, rc, err = ctx.script(script)
             active = rc != 0 and "stack-buffer-overflow" in err and "nist_read_header" in err
         elif e["id"] in PIPE_KF:
-            out = ctx.batch([("w", script)], op_timeout=2, workers=1).get("w", [])
+            out = ctx.batch([("w", script)], op_timeout=2, workers=1, retry_timeouts=False).get("w", [])
             active = any(l.startswith("TIMEOUT") for l in out) and not any(l.startswith("open=") for l in out)
         else:
             active = rc != 0 and "AddressSanitizer: FPE" in err and "psf_fread" in err and "_get_chunk_data" in err
